@@ -6,6 +6,11 @@ BASE = json.load(open("/root/.vp/BASELINE.json"))["cmd"] if os.path.exists("/roo
     "cd /repo && /venv/bin/python -m pytest -ra -q -p no:cacheprovider --timeout=900 --continue-on-collection-errors"
 
 CLAIMED = {
+ "C19": dict(
+    technique="static analysis: clang AST + case-based abstract execution of every wrapper; dominating-guard facts compared as polynomials with netlib BLAS/LAPACK footprints, bounded concrete counter-example search when forms differ; type-check-before-use, parse-format/storage and macro-vocabulary rules",
+    text="Static, exhaustive over the wrappers of blas.c and lapack.c (every type arm x flag x zero/positive dimension x optional-argument case), misc_solvers.c, and every PyArg_Parse* call of the six C files: each matrix buffer handed to BLAS/LAPACK is covered by dominating rejecting guards >= offset + reference footprint (exact for BLAS and 49 LAPACK routines, variable-set rule otherwise), offsets rejected when negative, leading dimensions checked, local arrays large enough; guards do not over-reject; misc_solvers kernels check type and length of matrix arguments (19 recorded findings); format units stored into matching C types; length/index macros have their reference definitions. It does NOT decide overflow of the int arithmetic inside the guards near 2^31, the internals of BLAS/LAPACK/SuiteSparse, nor sparse.c's index arithmetic.",
+    note="Trusted: clang 14, sa/kb_blas.py and sa/kb_lapack.py (netlib reference footprints), the abstract execution sa/cmodel.py, LP64 Linux configuration. Known findings (misc_solvers unguarded kernels, over-strict guards of the Q routines) are listed in known_findings.json with witnesses.",
+    ref="DESIGN.md section 3, C19"),
  "C17": dict(
     technique="static analysis: clang AST + case-based abstract execution of each wrapper (type arm x flags x zero/positive dimensions), polynomial comparison of rejecting guards with reference BLAS footprints, sibling-arm isomorphism, parse-table/signature/default agreement",
     text="Static, exhaustive over the 34 wrappers of blas.c and all their cases: real/complex arms argument-wise identical up to precision; keyword list, parse format, address arguments and C types agree, naming convention, manual signature prefix, documented defaults equal C initialisers / default statements; early return only where the reference operation leaves the output untouched; for every array handed to BLAS the rejecting guard equals offset + reference footprint in every case (not weaker, not stronger), offsets rejected when negative, leading dimensions checked; complex dot products composed correctly. It does NOT decide the numerical result of the BLAS routine.",
